@@ -37,4 +37,16 @@ def toProtobufExpected : String :=
   "&DeviceBillingStat{ LastActivityTime: timestamppb.New(r.Time), DeviceId: string(devID), ClientCountry: string(r.Country), Proto: uint32(r.Proto), Asn: uint32(r.ASN), Queries: uint32(r.Queries), }"
 theorem to_protobuf_src : to_protobuf = toProtobufExpected := rfl
 
+/-- `Upload`: an empty batch returns at once; errors of opening, of a `Send`, and of
+`CloseAndRecv` other than `io.EOF` are returned (`Agd.BillStat.upload`). -/
+def uploadCondsExpected : String :=
+  "len(records) == 0 | err != nil | record == nil | sendErr != nil | err != nil && !errors.Is(err, io.EOF)"
+theorem upload_conds_src : upload_conds = uploadCondsExpected := rfl
+/-- Every record of the batch goes through `recordToProtobuf` (`toWire`). -/
+theorem upload_send_arg_src : upload_send_arg = "recordToProtobuf(record, deviceID)" := by decide
+/-- `mu` and `refreshMu` are two mutexes, and the recorder starts with an empty table. -/
+def newRecorderExpected : String :=
+  "&RuntimeRecorder{ logger: c.Logger, refreshMu: &sync.Mutex{}, mu: &sync.Mutex{}, records: Records{}, uploader: c.Uploader, errColl: c.ErrColl, metrics: c.Metrics, }"
+theorem new_recorder_src : new_recorder = newRecorderExpected := rfl
+
 end Agd.Tie.C16
